@@ -12,8 +12,9 @@ for d in rows:
     out.append(f"| {d['id']} | {d['property']} | {d['needs'].replace('|', '/')} | {d['detected_by'].replace('|', '/')} |")
 out.append("")
 STRENGTHENED = ("only after", "after reading the", "shortly before this change")
-first = sum(1 for d in rows if not any(x in d["detected_by"] for x in STRENGTHENED))
-out.append(f"{len(rows)} changes; {first} were caught by the check as it stood, {len(rows) - first} only after the check (model, universe or driver) was strengthened - "
-           "each such strengthening is described in the row.")
+missed = sum(1 for d in rows if d["detected_by"].startswith("NOT DETECTED"))
+first = sum(1 for d in rows if not d["detected_by"].startswith("NOT DETECTED") and not any(x in d["detected_by"] for x in STRENGTHENED))
+out.append(f"{len(rows)} changes; {first} were caught by a check as it stood, {len(rows) - first - missed} only after the check (model, universe or driver) was strengthened - "
+           f"each such strengthening is described in the row - and {missed} are not detected (the row says why).")
 open("/verif/seeded/INDEX.md", "w").write("\n".join(out) + "\n")
-print(len(rows), first)
+print(len(rows), first, missed)
